@@ -39,7 +39,10 @@ def process_level(res, tier):
         for sc in (0.5, 1.7):
             pl.write_start_h5(os.path.join(wd, "start%d_%s.h5" % (n, sc)), n, blob(n, sc))
     jobs = [(n, f, s, r, ph) for n in ns for f in fills for s in starts for r in renorms for ph in range(len(physics))
-            if not (s.startswith("file") and len(fills[f]) > 1)]     # a start file holds one bunch
+            if not (s.startswith("file") and (len(fills[f]) > 1 or r == 0))]
+    # (a start file holds one bunch.  File start with RenormalizeCharge 0 is left out: main() passes the loaded grid through normalize() alone, which by its
+    #  contract divides by the integral of the last integrate() - for a freshly loaded grid that of the placeholder, so no renormalisation takes place and
+    #  C09 has nothing to say; C11 relies on exactly that: the stored values are loaded as they are)
 
     def do(j):
         n, f, s, r, ph = j
